@@ -62,6 +62,18 @@ pub struct Case {
     pub prog: Vec<Stmt>,
 }
 
+/// A `<g>` whose first attribute value is one of these also carries `data-w="{{#late~w}}"`: a forward reference in the
+/// group's *own* attribute, so the group itself (not something inside it) is what fails once and is tried again.
+fn g_fwd(attrs: &[(usize, String)]) -> bool {
+    attrs.first().map(|(_, v)| matches!(v.as_str(), "x1" | "zed" | "12")).unwrap_or(false)
+}
+
+/// A `<g>` whose first attribute value is one of these also carries `data-v="$name"`, name being that first attribute's
+/// own name: the group's attributes shadow for descendants only, so the reference reads the *outer* value.
+fn g_self(attrs: &[(usize, String)]) -> Option<usize> {
+    attrs.first().and_then(|(k, v)| if matches!(v.as_str(), "blue" | "green" | "x1") { Some(*k) } else { None })
+}
+
 // (the empty string is a value like any other: an empty binding still shadows an outer one)
 const LITS: [&str; 9] = ["red", "blue", "7", "12", "x1", "zed", "0", "green", ""];
 
@@ -259,6 +271,12 @@ fn render(prog: &[Stmt], out: &mut Vec<X>) {
                 for (k, v) in attrs {
                     g.set(NAMES[*k], v.clone());
                 }
+                if let Some(k) = g_self(attrs) {
+                    g.set("data-v", dollar(k));
+                }
+                if g_fwd(attrs) {
+                    g.set("data-w", "{{#late~w}}");
+                }
                 render(body, &mut g.kids);
                 out.push(X::El(g));
             }
@@ -373,6 +391,9 @@ fn interpret(prog: &[Stmt], stack: &mut Vec<Scope>, out: &mut Vec<String>) -> Op
             }
             Stmt::Probe => out.push(probe_expected("p", stack)),
             Stmt::G(attrs, body) => {
+                if let Some(k) = g_self(attrs) {
+                    out.push(format!("g:{}", lookup(stack, k).unwrap_or(dollar(k))));
+                }
                 stack.push(attrs.iter().map(|(k, v)| (*k, v.clone())).collect());
                 let r = interpret(body, stack, out);
                 stack.pop();
@@ -426,7 +447,8 @@ fn retried_construct_meets_global_assignment(prog: &[Stmt]) -> bool {
     fn has_fwd(s: &Stmt) -> bool {
         match s {
             Stmt::Fwd | Stmt::ReuseLate(_) => true,
-            Stmt::G(_, b) | Stmt::Loop(_, b) | Stmt::If(_, b) => b.iter().any(has_fwd),
+            Stmt::G(a, b) => g_fwd(a) || b.iter().any(has_fwd),
+            Stmt::Loop(_, b) | Stmt::If(_, b) => b.iter().any(has_fwd),
             _ => false,
         }
     }
@@ -455,7 +477,11 @@ fn count_fwd_in_scope(prog: &[Stmt], in_scope: bool) -> (usize, usize) {
                     a.1 += 1
                 }
             }
-            Stmt::G(_, b) => {
+            Stmt::G(ga, b) => {
+                if g_fwd(ga) {
+                    // the group's own scope is what must not outlive the failed attempt
+                    a.0 += 1;
+                }
                 let r = count_fwd_in_scope(b, true);
                 a.0 += r.0;
                 a.1 += r.1;
@@ -473,7 +499,19 @@ fn count_fwd_in_scope(prog: &[Stmt], in_scope: bool) -> (usize, usize) {
 
 fn probes_of(out: &str) -> Result<Vec<String>, String> {
     let tree = sxml::parse_tree(out).map_err(|e| e.to_string())?;
-    Ok(tree.descendants().iter().filter(|e| e.name == "text" && e.has_attr("data-q")).map(|e| e.text_content()).collect())
+    Ok(tree
+        .descendants()
+        .iter()
+        .filter_map(|e| {
+            if e.name == "text" && e.has_attr("data-q") {
+                Some(e.text_content())
+            } else if e.name == "g" && e.has_attr("data-v") {
+                Some(format!("g:{}", e.attr("data-v").unwrap_or_default()))
+            } else {
+                None
+            }
+        })
+        .collect())
 }
 
 impl Property for C15 {
@@ -489,7 +527,7 @@ impl Property for C15 {
     }
     fn assumptions(&self) -> Vec<String> {
         vec![
-            "<g> attribute values are literals (a <g> attribute that itself refers to a variable is pushed unevaluated; what a reference to it should yield is not documented)".into(),
+            "<g> attributes that bind the probed names have literal values (a <g> attribute that itself refers to a variable is pushed unevaluated; what a reference to it should yield is not documented); a third of the groups with attributes also carry data-v=\"$name\" (name = the group's own first attribute: must read the outer value, the group shadows for descendants only - reported as a probe g:value in document order) and a third carry data-w=\"{{#late~w}}\" (the group itself fails once and is tried again: its bindings must not stay behind)".into(),
             "programs that assign from an undefined name (the stored value would itself look like a reference) or increment a non-number are outside the domain (skipped, counted)".into(),
         ]
     }
